@@ -1,6 +1,7 @@
 """C11 — processing history only grows by appending (core part: NumPy calls; processing functions are added by the proc layer)."""
 import random
 from gen import *
+from fractions import Fraction
 from oracles import HistoryOracle
 from propbase import StreamProperty
 
@@ -10,12 +11,41 @@ RULE = ("pipelines of 1-5 history-stamping steps (NumPy ufuncs and reductions, p
         "history non-empty and pipeline length >=2; distinct by canonical stream")
 
 
+def proc_step(rng, cur, o, dims, a):
+    """a processing step whose parameters do not depend on the data"""
+    d = rng.choice(dims)
+    lo = min(Fraction(x) for x in a["coords"][a["dims"].index(d)])
+    hi = max(Fraction(x) for x in a["coords"][a["dims"].index(d)])
+    choices = ["cumulative_integrate", "left_shift", "normalize", "reference", "interp"]
+    if len(dims) > 1:
+        choices += ["integrate", "integrate_regions", "average"]
+    f = rng.choice(choices)
+    mk = lambda f, **kw: {"op": "proc", "f": f, "obj": cur, "out": o, "kw": kw}
+    if f == "integrate":
+        dims.remove(d); return mk("integrate", dim=d)
+    if f == "integrate_regions":
+        dims.remove(d)
+        return mk("integrate", dim=d, regions=[[str(lo - 1), str(hi + 1)], [str(lo), str((lo + hi) / 2)]])
+    if f == "average":
+        dims.remove(d); return mk("average", axis=d)
+    if f == "left_shift":
+        return mk("left_shift", dim=d, n=0)
+    if f == "normalize":
+        return mk("normalize", dim=rng.choice([None, d]))
+    if f == "reference":
+        return mk("reference", dim=d, old_ref="1", new_ref="0", shift="1")
+    if f == "interp":
+        return mk("interp", dim=d, new_coord=[str(lo + (hi - lo) * Fraction(t, 4)) for t in range(5)])
+    return mk("cumulative_integrate", dim=d)
+
+
 def streams(tier, seed):
     rng = random.Random(seed * 7919 + 11)
     out = []
     n = 120 if tier == "quick" else 1500
     for _ in range(n):
-        a = new_op(rng, 0, ndim=rng.randint(2, 3), hist=rng.randint(0, 12), attrs=rng.random() < 0.5, cplx=False)
+        a = new_op(rng, 0, ndim=rng.randint(2, 3), hist=rng.randint(0, 12), attrs=rng.random() < 0.5, cplx=False,
+                   kinds=["asc"] * 4)
         ops = [a]
         cur, dims = 0, list(a["dims"])
         for k in range(rng.randint(1, 5)):
@@ -28,8 +58,10 @@ def streams(tier, seed):
             elif c < 0.8 and len(dims) > 1:
                 d = rng.choice(dims); dims.remove(d)
                 ops.append({"op": "np_reduce", "f": rng.choice(["sum", "max", "mean"]), "obj": cur, "axis": d, "out": o})
-            else:
+            elif c < 0.85:
                 ops.append({"op": "np_unary", "f": "positive", "obj": cur, "out": o})
+            else:
+                ops.append(proc_step(rng, cur, o, dims, a))
             cur = o
         out.append(ops)
     return out
